@@ -315,6 +315,10 @@ func compareStr(a, op, b string) bool {
 // Uses the classic two-pointer backtracking algorithm: O(n*m) worst case, with no
 // exponential blow-up on adversarial patterns (unlike a naive per-'%' recursion).
 func matchesLikePattern(text, pattern string) bool {
+	if !likeASCII(text) || !likeASCII(pattern) {
+		// "_" stands for one CHARACTER: compare by runes when a multi-byte character is involved
+		return likeRunes([]rune(text), []rune(pattern))
+	}
 	ti, pi := 0, 0
 	starIdx, matchIdx := -1, 0 // last '%' index in pattern; text index when we took it
 	for ti < len(text) {
@@ -354,4 +358,39 @@ func isNilValue(v any) bool {
 		return rv.IsNil()
 	}
 	return false
+}
+
+func likeASCII(s string) bool {
+	for i := 0; i < len(s); i++ {
+		if s[i] >= 0x80 {
+			return false
+		}
+	}
+	return true
+}
+
+// likeRunes is the same two-pointer LIKE matcher over characters instead of bytes.
+func likeRunes(text, pattern []rune) bool {
+	ti, pi := 0, 0
+	starIdx, matchIdx := -1, 0
+	for ti < len(text) {
+		if pi < len(pattern) && pattern[pi] == '%' {
+			starIdx = pi
+			matchIdx = ti
+			pi++
+		} else if pi < len(pattern) && (pattern[pi] == '_' || pattern[pi] == text[ti]) {
+			ti++
+			pi++
+		} else if starIdx != -1 {
+			pi = starIdx + 1
+			matchIdx++
+			ti = matchIdx
+		} else {
+			return false
+		}
+	}
+	for pi < len(pattern) && pattern[pi] == '%' {
+		pi++
+	}
+	return pi == len(pattern)
 }
